@@ -43,7 +43,8 @@ def build_stream(ctx, i, short=False, big=False):
             am = {"tag": "setBLOBVector", "attrs": {"device": "CAM", "name": "IMG", "state": "Ok"}, "text": None,
                   "children": [{"tag": "oneBLOB", "attrs": {"name": "img", "size": nb, "format": ".bin"}, "text": text}]}
         mode = rng.random()
-        if mode < 0.3:
+        adjacent = rng.random() < 0.4      # no white space / declaration between this message and its neighbours
+        if mode < 0.3 and not adjacent:
             text = G.lib_message(am).to_string().decode("latin1")
             tail = 1
         else:
@@ -51,6 +52,9 @@ def build_stream(ctx, i, short=False, big=False):
             if short:
                 sp["decl"] = rng.choice([0, 0, 1])
                 sp["indent"] = 0
+            if adjacent:
+                sp["decl"] = 0
+                sp["tail"] = ""
             text = G.write_xml(am, sp)
             tail = len(sp["tail"])
         parts.append(text)
